@@ -65,6 +65,40 @@ Theorem C10_set_determined_by_members :
 Proof. intros A K key c l1 l2 L. apply strict_sorted_unique. exact L. Qed.
 Print Assumptions C10_set_determined_by_members.
 
+(** C10_setops_refine / C10_setmember_refines are not vacuous for the REAL comparison: with
+    [cmp_val] (evaluate_compare_op) and any key function of the pool whose keys on the two
+    arguments are numbers, all their hypotheses hold. *)
+Theorem C10_setops_number_keys :
+  forall (k : option fn) (a b : list val),
+    num_keys k a -> num_keys k b ->
+    strict_sorted (keyd k) cz a -> strict_sorted (keyd k) cz b ->
+    union_impl (keyfn k) cmp_val a b = union_spec (keyfn k) cmp_val a b /\
+    inter_impl (keyfn k) cmp_val a b = inter_spec (keyfn k) cmp_val a b /\
+    diff_impl (keyfn k) cmp_val a b = diff_spec (keyfn k) cmp_val a b /\
+    (exists u, union_impl (keyfn k) cmp_val a b = Some u /\ strict_sorted (keyd k) cz u /\
+               forall z, In z u <-> In z a \/ (In z b /\ key_in_b (keyd k) cz z a = false)) /\
+    inter_impl (keyfn k) cmp_val a b = Some (filter (fun x => key_in_b (keyd k) cz x b) a) /\
+    diff_impl (keyfn k) cmp_val a b = Some (filter (fun x => negb (key_in_b (keyd k) cz x b)) a).
+Proof.
+  intros k a b Na Nb Sa Sb.
+  pose proof (num_keys_ok k a Na) as Ka. pose proof (num_keys_ok k b Nb) as Kb.
+  pose proof (num_keys_cmp k a b Na Nb) as Hc.
+  destruct (C10_setops_follow_reference _ _ (keyfn k) cmp_val (keyd k) cz a b Ka Kb Hc) as [E1 [E2 E3]].
+  destruct (C10_setops_refine _ _ (keyfn k) cmp_val (keyd k) cz a b cmp_laws_cz Ka Kb Hc Sa Sb) as [U [I D]].
+  repeat split; assumption.
+Qed.
+Print Assumptions C10_setops_number_keys.
+Example C10_setops_number_keys_nonvacuous :
+  num_keys (Some FLen) [VStr []; VArr [VNum 5]; VStr [97%N; 98%N]] /\
+  strict_sorted (keyd (Some FLen)) cz [VStr []; VArr [VNum 5]; VStr [97%N; 98%N]] /\
+  union_impl (keyfn (Some FLen)) cmp_val [VStr []; VArr [VNum 5]; VStr [97%N; 98%N]] [VStr [98%N]; VArr [VNull; VNull; VNull]]
+  = Some [VStr []; VArr [VNum 5]; VStr [97%N; 98%N]; VArr [VNull; VNull; VNull]].
+Proof.
+  repeat split.
+  - repeat constructor; eexists; split; reflexivity.
+  - repeat constructor.
+Qed.
+
 (** The binary search of std.setMember answers membership-by-key on every set, exactly as the
     reference definition length(setInter([x], arr)) > 0 does; it never panics or runs out of fuel. *)
 Theorem C10_setmember_refines :
@@ -129,6 +163,24 @@ Theorem C10_sort_fast_paths :
 Proof. exact sort_fast_paths. Qed.
 Print Assumptions C10_sort_fast_paths.
 
+(** std.sort and std.set agree with the definition for ALL arrays and key functions whose keys the
+    classifier does not send to the comparator path: all numbers, all strings (stable sort), or a
+    number/string mix (both fail). *)
+Theorem C10_sort_refines_classified :
+  forall k l,
+    (forall ks, mapM (keyfn k) l = Some ks -> get_sort_type STUnknown ks <> Some STUnspec) ->
+    sort_impl k l = sort_spec k l /\ set_impl k l = set_spec k l.
+Proof.
+  intros k l H. pose proof (sort_refines_classified k l H) as E. split; [exact E|].
+  unfold set_impl, set_spec. rewrite E. destruct (sort_spec k l); [|reflexivity]. cbn [bind]. apply uniq_v_same.
+Qed.
+Print Assumptions C10_sort_refines_classified.
+Example C10_sort_refines_classified_nonvacuous :
+  (forall ks, mapM (keyfn (Some FLen)) [VStr [97%N; 98%N]; VArr []; VStr [98%N]] = Some ks ->
+              get_sort_type STUnknown ks <> Some STUnspec) /\
+  sort_impl (Some FLen) [VStr [97%N; 98%N]; VArr []; VStr [98%N]] = Some [VArr []; VStr [98%N]; VStr [97%N; 98%N]].
+Proof. split; [|reflexivity]. intros ks H. injection H as <-. discriminate. Qed.
+
 (** the comparator path: when every comparison the sort can make succeeds it is the same sort *)
 Theorem C10_sort_fallible_path :
   forall (A : Type) (cmpf : A -> A -> option comparison) (leb : A -> A -> bool) (l : list A),
@@ -191,10 +243,11 @@ Print Assumptions C10_remove_refines.
     outcome for ALL arguments outside the known class.
     Full statement (not proved):
       forall c, judge c = JSpec -> known_sum_negzero c = false -> impl_call c = spec_call c.
-    Missing: for std.sort/std.set the comparator path on keys that are neither all numbers nor
-    all strings (C10_sort_fast_paths + C10_sort_fallible_path cover the paths separately), and
-    for the set functions the instantiation of C10_setops_refine with [cmp_val], which needs the
-    order laws of [cmp_val] on nested arrays. *)
+    Missing: for std.sort/std.set the comparator path (keys that contain an array / null /
+    boolean / object; C10_sort_refines_classified covers every other call, C10_sort_fallible_path
+    the path itself under total comparability), and for the set functions the instantiation of
+    C10_setops_refine with [cmp_val] on array keys, which needs the order laws of [cmp_val] on
+    nested arrays (C10_setops_number_keys is the instance for number keys). *)
 Theorem C10_calls_refine_partial :
   forall c, simple_call c = true -> known_sum_negzero c = false -> impl_call c = spec_call c.
 Proof. exact simple_calls_refine. Qed.
